@@ -41,7 +41,7 @@ def addMetrics (jsonKeys : List (Str × Str)) (descr : Str → Option Str) (usf 
     | some k, some d => addMetrics jsonKeys descr usf (insert k (.str (usf d)) data) rest
     | _, _ => none
 
-/-- Decimal truthiness used by cvss2.py: `if self.temporal_score` -/
+/-- Decimal truthiness used by cvss2.py: `float(self.temporal_score) if self.temporal_score else 0.0` -/
 def truthy : Option Rat → Bool
   | none => false
   | some x => x ≠ 0
@@ -51,12 +51,12 @@ def asJson2 (o : V2.Obj) (sort minimal : Bool) : Option JObj := do
   let d0 : JObj := [(c!"version", .str c!"2.0"), (c!"vectorString", .str o.vector), (c!"baseScore", .num o.base)]
   let d1 ← add d0 Gen.V2.mandatory
   let d2 ←
-    if !minimal || truthy o.temporal then do
+    if !minimal || o.temporal.isSome then do
       let d ← add d1 Gen.V2.temporal
       pure (insert c!"temporalScore" (.num (if truthy o.temporal then o.temporal.getD 0 else 0)) d)
     else pure d1
   let d3 ←
-    if !minimal || truthy o.env then do
+    if !minimal || o.env.isSome then do
       let d ← add d2 Gen.V2.environmental
       pure (insert c!"environmentalScore" (.num (if truthy o.env then o.env.getD 0 else 0)) d)
     else pure d2
